@@ -42,6 +42,13 @@ type c07Case struct {
 	Clients   [][]c07Op     `json:"clients"`
 	// Gated schedule (check "gated"): see c07Gated
 	Gated *c07GatedSpec `json:"gated,omitempty"`
+	// Bucket schedule (check "bucket-gated"): see c07BucketGated
+	Bucket *c07BucketSpec `json:"bucket,omitempty"`
+}
+
+type c07BucketSpec struct {
+	GateAt   int  `json:"gateAt"`
+	Recreate bool `json:"recreate"`
 }
 
 // one recorded operation of a history
@@ -921,6 +928,84 @@ func c07MpuGated(k backends.Kind, spec c07MpuSpec, versioned bool) (ds []disc, o
 	return
 }
 
+// c07BucketGated: an upload into an (otherwise empty) bucket is held while its body arrives; meanwhile
+// the bucket is deleted and created again. Whatever order explains the answers: an upload that is
+// acknowledged after the bucket exists again is there afterwards (if the delete succeeded, the upload
+// had not taken effect before it, so it took effect after the re-creation or not at all).
+func c07BucketGated(k backends.Kind, gateAt int, recreate bool, viaCopy bool) (ds []disc) {
+	st := backends.Must(k, backends.Options{})
+	defer st.Close()
+	for _, b := range []string{"bk0", "bk1"} {
+		if err := ensureBucket(st, b); err != nil {
+			panic(err)
+		}
+	}
+	body, _ := c07Body(1, 1, 50000)
+	put(st, "bk0", "src", body)
+	reached, release := make(chan struct{}), make(chan struct{})
+	var once sync.Once
+	rq := &s3x.Req{Method: "PUT", Path: "/bk1/k", Body: body, Gate: func(off int) {
+		if off >= gateAt {
+			once.Do(func() { close(reached); <-release })
+		}
+	}}
+	var up *s3x.Resp
+	done := make(chan struct{})
+	go func() { defer close(done); up = s3x.DoWith(st.Handler, rq, s3x.DoOpts{Timeout: 30 * time.Second}) }()
+	select {
+	case <-reached:
+	case <-done:
+		return nil // the body was consumed without reaching the gate offset
+	case <-time.After(20 * time.Second):
+		close(release)
+		return dsc("inconclusive:gate-not-reached", "backend=%s: the upload never reached body offset %d", k, gateAt)
+	}
+	rivals := make(chan [2]int, 1)
+	go func() {
+		d := s3x.DoWith(st.Handler, &s3x.Req{Method: "DELETE", Path: "/bk1"}, s3x.DoOpts{Timeout: 30 * time.Second})
+		c := 0
+		if recreate {
+			c = s3x.DoWith(st.Handler, &s3x.Req{Method: "PUT", Path: "/bk1"}, s3x.DoOpts{Timeout: 30 * time.Second}).Status
+		}
+		rivals <- [2]int{d.Status, c}
+	}()
+	var rv [2]int
+	blocked := false
+	select {
+	case rv = <-rivals:
+	case <-time.After(300 * time.Millisecond):
+		blocked = true // the bucket operations wait for the upload: fine
+	}
+	close(release)
+	<-done
+	if blocked {
+		rv = <-rivals
+	}
+	if up.Panic != "" {
+		return dsc("panic", "backend=%s: upload: %s at %s", k, up.Panic, up.PanicSite)
+	}
+	g := get(st, "bk1", "k")
+	fail := func(kind, f string, a ...interface{}) {
+		ds = append(ds, disc{Kind: kind, Detail: fmt.Sprintf("backend=%s gate=%d recreate=%v rivals-blocked=%v: upload answered %d, DELETE bucket %d, PUT bucket %d, then GET answers %d (%d bytes): ", k, gateAt, recreate, blocked, up.Status, rv[0], rv[1], g.Status, len(g.Body)) + fmt.Sprintf(f, a...)})
+	}
+	switch {
+	case up.Status == 200 && !blocked && rv[0] == 204 && (!recreate || rv[1] == 200):
+		// delete (and re-creation) completed inside the upload's interval
+		if recreate && (g.Status != 200 || !bytes.Equal(g.Body, body)) {
+			fail("acknowledged-upload-lost", "the bucket was deleted and created again while the upload was in flight; the upload was acknowledged afterwards but its object is not there")
+		}
+		if !recreate && g.Status == 200 {
+			fail("object-in-deleted-bucket", "the bucket was deleted while the upload was in flight and never created again, yet the object reads back")
+		}
+		if !recreate && up.Status == 200 {
+			fail("acknowledged-upload-lost", "the bucket was deleted (204) while the upload was in flight: the upload cannot have taken effect before the delete (the bucket was empty) nor after it (no bucket), but was acknowledged")
+		}
+	case up.Status == 200 && (g.Status != 200 || !bytes.Equal(g.Body, body)) && (blocked || rv[0] != 204):
+		fail("acknowledged-upload-lost", "the bucket was not deleted, the upload was acknowledged, but its object does not read back")
+	}
+	return ds
+}
+
 // ---- plumbing -------------------------------------------------------------------------------
 
 func c07Replay(check string, raw json.RawMessage) ([]disc, error) {
@@ -942,6 +1027,9 @@ func c07Replay(check string, raw json.RawMessage) ([]disc, error) {
 		}
 		ds, _ := c07MpuGated(mr.Backend, mr.Spec, mr.Versioned)
 		return c07Filter(ds), nil
+	}
+	if check == "bucket-gated" && rep.Case.Bucket != nil {
+		return c07Classify(rep.Case, c07Filter(c07BucketGated(rep.Case.Backend, rep.Case.Bucket.GateAt, rep.Case.Bucket.Recreate, false))), nil
 	}
 	if check == "gated" {
 		ds, _, _ := c07Gated(rep.Case)
@@ -1038,6 +1126,7 @@ func c07Run(t *testing.T, c *evid.Collector) {
 		return report(c, check, c07Classify(cs, real), rp)
 	}
 	c07RunMpu(t, c, kinds)
+	c07RunBucket(c, kinds)
 	nclients := evid.Scale(8, 16)
 	rapidRun(t, "histories", evid.Scale(250, 5000), func(rt *rapid.T) {
 		cs := c07Case{Backend: rapid.SampledFrom(kinds).Draw(rt, "backend"), Keys: rapid.IntRange(1, 3).Draw(rt, "keys")}
@@ -1119,6 +1208,33 @@ func c07Run(t *testing.T, c *evid.Collector) {
 			rt.Fatalf("C07 violated: %v", c07Filter(ds))
 		}
 	})
+}
+
+func c07RunBucket(c *evid.Collector, kinds []backends.Kind) {
+	if evid.Shard() != 0 {
+		return
+	}
+	for _, k := range kinds {
+		if k.IsSingle() {
+			continue
+		}
+		for _, gate := range []int{1, 25000, 49999} {
+			for _, recreate := range []bool{true, false} {
+				ds := c07BucketGated(k, gate, recreate, false)
+				cs := c07Case{Backend: k, Keys: 1, Bucket: &c07BucketSpec{GateAt: gate, Recreate: recreate}}
+				var real []disc
+				for _, d := range ds {
+					if strings.HasPrefix(d.Kind, "inconclusive:") {
+						c.Inconclusive(d.Detail)
+						continue
+					}
+					real = append(real, d)
+				}
+				c.Case(evid.FP("bucket-gated", mustJSON(cs)), true, func() interface{} { return cs }, "backend:"+string(k), "check:bucket-gated", "src:fixed")
+				report(c, "bucket-gated", c07Classify(cs, real), c07Replayable{Case: cs})
+			}
+		}
+	}
 }
 
 func c07RunMpu(t *testing.T, c *evid.Collector, kinds []backends.Kind) {
